@@ -12,7 +12,8 @@ WALL_CAP = {"quick": 150, "thorough": 3000}
 CHUNK = 100
 RULE = ("one case = a prior history on a simulator+model (never started / k steps "
         "/ paused by a handler calling stop / bounded run / ended / paused by an "
-        "injected handler fault / refused start / initialize attempted from a "
+        "injected handler fault / refused start / given up by a handler that calls cleanup() "
+        "and schedules on / initialize attempted from a "
         "handler while running / ended and re-initialised by a polling caller the moment ENDED is "
         "published, with the eager-poller fault) followed by initialize(model, replication) again "
         "(same model object, same or different replication settings) and a run to "
@@ -35,7 +36,7 @@ COMPONENTS = {
 ASSUMPTIONS = ["re-initialisation is issued at quiescence (initialize while the run thread is STOPPING is a grace-period case, see C04)"]
 KINDS = ["counter", "tally", "wtally", "persistent"]
 HARNESS_ACTIONS = ("settle", "poll", "poll_stopped", "sleep", "drain")
-PRIORS = ["never", "steps", "pause", "bounded", "ended", "fault", "refused",
+PRIORS = ["never", "steps", "pause", "bounded", "ended", "fault", "refused", "cleanup_from_handler",
           "init_from_handler", "init_from_handler_after_stop", "ended_polling",
           "ended_polling"]
 
@@ -81,6 +82,13 @@ def generate(seed, tier, idx=0):
     if prior == "init_from_handler":
         al = prog["events"][rng.choice(eids)]
         al.insert(rng.randint(0, len(al)), ["cmd", "initialize"])
+    if prior == "cleanup_from_handler":
+        # a handler gives the replication up with cleanup() and runs on into its
+        # ordinary scheduling code: those events are pending when the simulator is
+        # initialised again
+        busy = [e for e in eids if any(a[0] in ("rel", "now", "abs") for a in prog["events"][e])]
+        al = prog["events"][rng.choice(busy or eids)]
+        al.insert(0 if rng.random() < 0.7 else rng.randint(0, len(al)), ["cmd", "cleanup"])
     if prior == "init_from_handler_after_stop":
         # the handler requests a stop and then tries to re-initialise while the
         # run thread (itself) is still STOPPING: refused, nothing may change
@@ -110,6 +118,15 @@ def generate(seed, tier, idx=0):
                 apply(["step"])
     elif prior in ("pause", "fault", "init_from_handler", "init_from_handler_after_stop"):
         apply(["start"])
+    elif prior == "cleanup_from_handler":
+        if rng.random() < 0.5:
+            apply(["start"])
+        else:
+            # ... or the handler is executed by step(), on the caller thread
+            for _ in range(12):
+                if ref.cleaned_by_handler or not ref.can_start() or ref.step_at_boundary():
+                    break
+                apply(["step"])
     elif prior == "bounded":
         times = [t for t in ref.pending_times() if ref.clock <= t < ref.end]
         if times:
